@@ -29,6 +29,10 @@ CHECKS = {
             "R-expr is the trusted evaluator; results the Specification does not pin are not compared; bounded exponents"),
     "C12": ("icontract postcondition (M-const) on the real Constant.__init__ + complete boundary grid with accept/reject and exact stored-value oracle",
             "acceptance rules as restated in the property; exhaustive=true refers to the finite boundary grid only"),
+    "C13": ("exception-taxonomy classifier (M-tax) at the API boundary over token/character mutations, noise, 230 targeted corner statements and hostile file names",
+            "mutants that could only exhaust resources are dropped and counted; UTF-8 text only"),
+    "C17": ("fault/@print injection at known lines and depths; M-tax on Error.path/line and M-print (evaluations recorded at the real directive handler vs deliveries to the user handler)",
+            "finalize-time errors carry no line by design: only their path is checked"),
 }
 
 NOT_YET = {
